@@ -263,8 +263,6 @@ structure St where
   nEnums : Nat := 0
   nScopes : Nat := 0
   events : Array Ev := #[]        -- the declaration-map events in program order (for the evidence / theorem tie)
-  memberFixed : Bool := false     -- model of the repaired MemberExpr branch (proposed/C35-member-flag.diff), chosen by the check
-  boundsChecked : Bool := false   -- model of proposed/C35-children-bounds.diff: `children[N]` / `children.back()` became `getChild(..)`
 
 abbrev M := StateT St (Except Err)
 
@@ -293,11 +291,10 @@ def getChild (n : NodeRec) (c : Nat) : M (Option Nat) :=
   | some ch => pure ch
   | none => failM (.internal "getChild")
 
-/-- an access past `children`: undefined behaviour in the current code, `getChild`'s InternalError in the repaired code -/
-def oob (what : String) : M α := do
-  if (← get).boundsChecked then failM (.internal "getChild") else failM (.ub what)
+/-- an access past `children`: every such access goes through `getChild` (commit 683485c) and ends in its InternalError -/
+def oob (_what : String) : M α := failM (.internal "getChild")
 
-/-- `children[c]` (no bounds check in the C++) -/
+/-- `getChild(c)` where the code used to say `children[c]` -/
 def childAt (n : NodeRec) (c : Nat) : M (Option Nat) :=
   match n.children[c]? with
   | some ch => pure ch
@@ -964,16 +961,14 @@ def createTokens (fuel : Nat) (i : Nat) : M (Option Nat) :=
     if nt == "MemberExpr" then
       let s ← createTokens fuel (← child0)
       let dot ← addtoken self ['.']
-      -- `… ->name 0xaddr [flag]`: the current code takes the last two fields (`getSpelling()`, `mExtTokens.back()`); the repaired code
-      -- looks for the address first
+      -- `… ->name 0xaddr [flag]`: the address field is located first (commit 62b103f), the name is the field before it
       let sz := self.ext.length
       let addrIndex := scanDown self.ext (fun t => !startsWith t "0x") 1 (sz + 1) ((sz : Int) - 1)
-      let fixed := (← get).memberFixed
-      let sp ← (do if fixed then (if addrIndex ≥ 1 then extAt self (addrIndex.toNat - 1) else pure []) else getSpelling self)
+      let sp ← (do if addrIndex ≥ 1 then extAt self (addrIndex.toNat - 1) else pure [])
       let mn0 := if startsWith sp "->" then sp.drop 2 else if startsWith sp "." then sp.drop 1 else sp
       let mn := if mn0.isEmpty then lit "<unknown>" else mn0
       let member ← addtoken self mn
-      let addr ← (do if fixed then (if addrIndex ≥ 0 then extAt self addrIndex.toNat else failM (.ub "mExtTokens[addrIndex] in MemberExpr")) else extBack self)
+      let addr ← (do if addrIndex ≥ 0 then extAt self addrIndex.toNat else failM (.ub "mExtTokens[addrIndex] in MemberExpr"))
       emitEv (.ref addr member)
       op1 dot s
       op2 dot (some member)
@@ -1180,24 +1175,14 @@ def runOps (s : AstStore.Store) : List AstStore.Op → Except Err AstStore.Store
     | (_, .throw) => .error (.internal "ast-cycle")
     | (_, .hang) => .error .hang
 
-/-- `setTypes(tokenList)`: for every token between `sizeof (` and the next `)` that has no `type()`, `typeToken->type(findType(..))`
-    stores into the union that also holds the Variable / Function / Enumerator pointer: those links are lost (the varId stays).
-    `fixed = true` models the repaired loop that leaves linked tokens alone.  Returns the live-token indices that lose their link. -/
-def sizeofScan : Bool → List (Nat × Tok) → List Nat
-  | _, [] => []
-  | true, (i, t) :: r => if t.str == [')'] then sizeofScan false r else i :: sizeofScan true r
-  | false, [_] => []
-  | false, (_, t) :: (j, u) :: r =>
-    if t.str == "sizeof".toList && u.str == ['('] then sizeofScan true r else sizeofScan false ((j, u) :: r)
-
-def sizeofCleared (live : List (Nat × Tok)) : List Nat := sizeofScan false live
+/- `setTypes(tokenList)` gives the tokens between `sizeof (` and `)` that carry no type, variable, function or enumerator the result of
+   `findType` (commit 4904769 skips linked tokens): it changes nothing the model observes. -/
 
 def isBracket (s : Str) : Bool := s == ['('] || s == [')'] || s == ['['] || s == [']'] || s == ['{'] || s == ['}']
 
 /-- `parseClangAstDump` up to and including the link validation; `file0` = the file the TokenList already knows -/
-def importDump (file0 : Str) (text : Str) (sizeofFixed : Bool := false) (memberFixed : Bool := false) (boundsChecked : Bool := false) :
-    Except Err Imported :=
-  match (lineLoop (splitLines text) []).run { files := [file0], memberFixed := memberFixed, boundsChecked := boundsChecked } with
+def importDump (file0 : Str) (text : Str) : Except Err Imported :=
+  match (lineLoop (splitLines text) []).run { files := [file0] } with
   | .error e => .error e
   | .ok (_, st) =>
     -- "Validation": every bracket token has a link
@@ -1207,10 +1192,7 @@ def importDump (file0 : Str) (text : Str) (sizeofFixed : Bool := false) (memberF
       | .error e => .error e
       | .ok store =>
         let enumName := fun o => (st.events.toList.findSome? fun e => match e with | .enumDecl _ t o' => if o' = o then some t else none | _ => none)
-        let live := (st.toks.toList.zipIdx.map fun (t, i) => (i, t)).filter (fun it => !it.2.deleted)
-        let cleared := if sizeofFixed then [] else sizeofCleared live
-        let attrs := fun i => if cleared.contains i then { st.data.attrs i with ptr := none } else st.data.attrs i
-        .ok { toks := st.toks, store := store, attrs := attrs, varDef := st.data.varDef, funcs := st.funcs,
+        .ok { toks := st.toks, store := store, attrs := st.data.attrs, varDef := st.data.varDef, funcs := st.funcs,
               ops := st.ops.toList.map SetOp.toOp, events := st.events.toList, enumName := enumName }
 
 /-! ## Part 3: the invariant checker run on the token list the REAL importer produced
